@@ -197,7 +197,15 @@ func (p *redisProc) handleRequest(req *rawRequest) {
 	hdlr, ok := p.findHandler(cmd)
 	if !ok {
 		// unsupported command
-		req.SetResponse(newError(fmt.Sprintf("ERR unsupported command '%s'", cmd)))
+		// the command name comes from the client, CR or LF in it would
+		// split the single-line error reply into several replies.
+		name := []byte(cmd)
+		for i, c := range name {
+			if c == CR || c == LF {
+				name[i] = ' '
+			}
+		}
+		req.SetResponse(newError(fmt.Sprintf("ERR unsupported command '%s'", name)))
 		return
 	}
 
